@@ -92,11 +92,11 @@ for d in sorted(glob.glob(V+'/seeded/C*/')):
     prop=name[:3]
     val=''
     try:
-        val=[l for l in open(d+'validate.log') if l.startswith('RESULT')][-1].strip()
+        val=[l for l in open(d+'validate.log', errors='replace') if l.startswith('RESULT')][-1].strip()
     except Exception: pass
     det={}
     for f in sorted(glob.glob(d+'detect*.log')):
-        for l in open(f):
+        for l in open(f, errors='replace'):
             m=re.match(r'^(\S+) ->(.*)$',l.strip())
             if m:
                 for tok in m.group(2).split():
